@@ -157,6 +157,7 @@ func (c *ctx) found() []found {
 // dates
 
 type dateObs struct {
+	refused bool // an optional spelling / reflected method refused the text: not judged
 	err     string
 	y, m, d int
 	text    string
@@ -202,6 +203,8 @@ var dateFnsExtra = []struct{ fn, via string }{
 	{"Date.UnmarshalUT0311L0x", "codec-value-field"},
 	{"Date.UnmarshalUT0311L0x", "codec-pointer-field"},
 	{"Date.UnmarshalJSON", "json.Unmarshal"},
+	{"ParseDate", "spelling:/"}, {"ParseDate", "spelling:."}, {"ParseDate", "spelling: "}, {"ParseDate", "spelling:none"},
+	{"ParseDate", "spelling:unpadded"}, {"ParseDate", "spelling:day-first"}, {"ParseDate", "spelling:T"},
 }
 
 // dayRef is the reference rendering of one civil day (computed once per day, used by all functions).
@@ -226,6 +229,28 @@ func libDate(fn, via string, day *dayRef) dateObs {
 		return observeDate(types.ToDate(y, time.Month(m), d))
 
 	case "ParseDate":
+		if strings.HasPrefix(via, "spelling:") {
+			// other spellings of the same day (separators '/', '.', ' ', none; no zero padding; day first):
+			// a parser is free to refuse them (C14 judges which texts are dates), but a spelling it accepts
+			// is a date parsed from text like any other and must show its civil day
+			sep := strings.TrimPrefix(via, "spelling:")
+			alt := fmt.Sprintf("%04d%s%02d%s%02d", y, sep, m, sep, d)
+			switch sep {
+			case "unpadded":
+				alt = fmt.Sprintf("%d-%d-%d", y, m, d)
+			case "day-first":
+				alt = fmt.Sprintf("%02d-%02d-%04d", d, m, y)
+			case "none":
+				alt = fmt.Sprintf("%04d%02d%02d", y, m, d)
+			case "T":
+				alt = text + "T00:00:00"
+			}
+			dt, err := types.ParseDate(alt)
+			if err != nil || dt.IsZero() {
+				return dateObs{refused: true}
+			}
+			return observeDate(dt)
+		}
 		dt, err := types.ParseDate(text)
 		if err != nil {
 			return dateObs{err: err.Error()}
@@ -329,7 +354,7 @@ func reflectedDate(method string, day *dayRef) dateObs {
 	}
 	if err, _ := m.Call([]reflect.Value{arg})[0].Interface().(error); err != nil {
 		// not judged: report the reference values so that checkDay counts the case as agreeing
-		return dateObs{y: day.y, m: day.m, d: day.d, text: day.text, wire: day.wire[:], js: string(day.js)}
+		return dateObs{refused: true}
 	}
 	return observeDate(dt)
 }
@@ -348,6 +373,10 @@ func (c *ctx) checkDay(fn, via string, day *dayRef) {
 	y, m, d := day.y, day.m, day.d
 	o := libDate(fn, via, day)
 	c.cnt.Evals++
+	if o.refused {
+		c.cnt.Unjudged++ // an optional entry point / spelling that the library does not accept: nothing to judge
+		return
+	}
 	want := day.text
 	wire := day.wire
 	if c.verbose {
